@@ -74,16 +74,42 @@ def run_job(job):
                     if [int(x) for x in poller.read(k, k)] != [k]:
                         bad({"class": "placement", "side": "polling_reader"}, "a reader that polled read(%d,%d) before the write does not see the sample afterwards" % (k, k), k=k)
         part["transitions"] += len(ks)
+        # a second channel recorded by the same process over the same file periods (other indices): each
+        # channel's samples are placed under its own directory
+        mdir2 = os.path.join(top, "md_second_channel")
+        os.makedirs(mdir2)
+        ks2 = sorted(set(k + 2 for k in ks[::4]))
+        wri2 = drf.DigitalMetadataWriter(mdir2, sc, fc, n, d, "m")
+        wri2.write(ks2, {"v": np.array(ks2, dtype=np.uint64)})
+
+        def groups_on_disk(base):
+            out_ = {}
+            for root, dirs, files in os.walk(base):
+                for fn in files:
+                    if "@" not in fn:
+                        continue
+                    rel = os.path.relpath(os.path.join(root, fn), base)
+                    with h5py.File(os.path.join(root, fn), "r") as f:
+                        for g in f.keys():
+                            out_.setdefault(int(g), []).append(rel)
+            return out_
+
         # on disk: which file holds which group
-        where = {}
-        for root, dirs, files in os.walk(mdir):
-            for fn in files:
-                if "@" not in fn:
-                    continue
-                rel = os.path.relpath(os.path.join(root, fn), mdir)
-                with h5py.File(os.path.join(root, fn), "r") as f:
-                    for g in f.keys():
-                        where.setdefault(int(g), []).append(rel)
+        where = groups_on_disk(mdir)
+        where2 = groups_on_disk(mdir2)
+        if set(where) != set(ks):
+            bad({"class": "placement", "side": "writer_foreign_samples"}, "channel directory holds samples %s that were not written to it" % sorted(set(where) - set(ks))[:4])
+        for k in ks2:
+            want = md.relpath(k, n, d, fc, sc, "m")
+            if where2.get(k, []) != [want]:
+                bad({"class": "placement", "side": "writer_second_channel"}, "second channel of the process: sample %d stored in %s, exact placement %s" % (k, where2.get(k, []), want), k=k)
+                break
+        r2c = drf.DigitalMetadataReader(mdir2)
+        for k in ks2[::5]:
+            if [int(x) for x in r2c.read(k, k)] != [k]:
+                bad({"class": "placement", "side": "reader_second_channel"}, "second channel: read(%d,%d) does not return the sample" % (k, k), k=k)
+                break
+        part["evaluations"] += len(ks2)
         files = set()
         for k in ks:
             want = md.relpath(k, n, d, fc, sc, "m")
